@@ -412,7 +412,10 @@ class Type1Tag(Tag):
             raise ValueError("invalid byte address")
         log.debug("read byte at address {0} ({0:02X}h)".format(addr))
         cmd = bytearray([0x01, addr, 0x00]) + self.uid
-        return self.transceive(cmd)[-1]
+        rsp = self.transceive(cmd)
+        if len(rsp) < 2:
+            raise Type1TagCommandError(RESPONSE_ERROR)
+        return rsp[-1]
 
     def read_block(self, block):
         """Read an 8-byte data block at address (block * 8).
@@ -421,7 +424,10 @@ class Type1Tag(Tag):
             raise ValueError("invalid block number")
         log.debug("read block {0}".format(block))
         cmd = bytearray([0x02, block] + [0x00 for _ in range(8)]) + self.uid
-        return self.transceive(cmd)[1:9]
+        rsp = self.transceive(cmd)
+        if len(rsp) < 9:
+            raise Type1TagCommandError(RESPONSE_ERROR)
+        return rsp[1:9]
 
     def read_segment(self, segment):
         """Read one memory segment (128 byte).
@@ -511,6 +517,9 @@ class Type1TagMemoryReader(object):
                 self._read_from_tag(stop)
         elif key >= len(self):
             self._read_from_tag(stop=key+1)
+            if key >= len(self):
+                # the tag did not deliver the memory it was asked for
+                raise Type1TagCommandError(RESPONSE_ERROR)
         return self._data_in_cache[key]
 
     def __setitem__(self, key, value):
@@ -529,6 +538,8 @@ class Type1TagMemoryReader(object):
     def _read_from_tag(self, stop):
         if len(self) < 120:
             read_all_data_response = self._tag.read_all()
+            if len(read_all_data_response) < 2:
+                raise Type1TagCommandError(RESPONSE_ERROR)
             self._header_rom = read_all_data_response[0:2]
             self._data_from_tag[0:] = read_all_data_response[2:]
             self._data_in_cache[0:] = self._data_from_tag[0:]
